@@ -44,7 +44,7 @@ class C11:
             "non-ASCII character, > 1 tier, or an explicit version request on a hybrid is present; distinct by "
             "(origin, version x request, character classes, #tiers, url-list form, route)")
     required = ("uris_parsed", "btih_compared", "btmh_compared", "tr_compared", "ws_compared", "printed_compared",
-                "origin_tool", "origin_edited", "origin_ref", "announce_not_first_in_list", "create_magnet_route")
+                "origin_tool", "origin_edited", "origin_ref", "announce_not_first_in_list", "create_magnet_route", "all_files_empty_cases")
     assumptions = ("reference span decoder locates the exact info bytes", "urllib.parse.unquote_to_bytes decodes as clients do")
 
     @staticmethod
@@ -54,8 +54,9 @@ class C11:
         name = rng.choice(HOSTILE_NAMES) if rng.random() < 0.7 else rng.choice(["T", "payload"])
         single = rng.random() < 0.4
         nfiles = 1 if single else rng.randint(1, 3)
-        files = [[f"f{k}" if not single else name, rng.choice([5, 100, 16385, 20000, 40000]), rng.randrange(1 << 30)]
-                 for k in range(nfiles)]
+        all_empty = rng.random() < 0.06            # degenerate but valid: the payload consists of empty files only
+        files = [[f"f{k}" if not single else name, 0 if all_empty else rng.choice([0, 5, 100, 16385, 20000, 40000]),
+                  rng.randrange(1 << 30)] for k in range(nfiles)]
         tiers = None
         ann = None
         c = rng.random()
@@ -102,7 +103,7 @@ class C11:
     def run(case, scratch):
         commands = drive.mod("commands")
         reach = env.Reach()
-        reach.start({"commands.magnet": commands.magnet, "commands.get_magnet": commands.get_magnet})
+        reach.start({"commands.magnet": env.Tolerant(commands).magnet, "commands.get_magnet": env.Tolerant(commands).get_magnet})
         counters, viol = {}, []
         pl = 16384
         mpath = os.path.join(scratch, "meta", "m.torrent")
@@ -259,6 +260,8 @@ class C11:
         alltext = exp_dn + b"".join(exp_tr) + b"".join(exp_ws)
         classes = sorted({c for c in "&=%+# " if c.encode() in alltext} | ({"non-ascii"} if not alltext.isascii() else set()))
         ntiers = len(case["tiers"]) if case["tiers"] else 0
+        if all(f[1] == 0 for f in case["files"]):
+            counters["all_files_empty_cases"] = 1
         if case["tiers"] and case["announce"] and case["announce"] != case["tiers"][0][0]:
             counters["announce_not_first_in_list"] = 1
         nontrivial = bool(classes) or ntiers > 1 or (ver == 3 and req != 0)
@@ -832,8 +835,8 @@ class C20:
     def run(case, scratch):
         torrent, commands = drive.mod("torrent"), drive.mod("commands")
         reach = env.Reach()
-        reach.start({"commands.create": commands.create, "commands.parse_config_file": commands.parse_config_file,
-                     "commands.find_config_file": commands.find_config_file, "MetaFile.__init__": torrent.MetaFile.__init__})
+        reach.start({"commands.create": env.Tolerant(commands).create, "commands.parse_config_file": env.Tolerant(commands).parse_config_file,
+                     "commands.find_config_file": env.Tolerant(commands).find_config_file, "MetaFile.__init__": env.Tolerant(torrent).MetaFile.__init__})
         env.install_enum_order("shuffle", case["order_seed"])
         counters, viol = {}, []
         tree = case["tree"]
